@@ -37,7 +37,7 @@ type ParkSched struct {
 	freeGo chan struct{}
 	// StuckStacks: when Stuck, the goroutine dump blocks (state line and frames) of the unfinished tasks
 	StuckStacks []string
-	Blocks int  // decisions taken while some task was blocked on a lock/channel
+	Blocks      int // decisions taken while some task was blocked on a lock/channel
 }
 
 type ptask struct {
